@@ -235,15 +235,22 @@ func (fe *FuncEnc) heapsOfAllocLike(in ssa.Instruction, hs map[string]bool) {
 // cutLoop: st is the merged state over loop-entry edges. Emits inv-init, havocs, assumes invariants.
 func (fr *Frame) cutLoop(li *loopInfo, st *State) {
 	fe := fr.fe
+	fe.curState = st
 	ord := fr.loopOrdinal(li.header)
 	invs := fr.loopInvariants(ord)
 	entries := fr.inEdges(li.header, false)
+	ghosts := fr.loopGhosts(ord)
 	// inv-init on each entry edge
 	if fr.depth == 0 {
 		for _, inv := range invs {
 			for _, e := range entries {
 				env := fr.envAt(e.info.st)
 				env.phiEdge = &phiSel{block: li.header, predIdx: e.predIdx}
+				for _, g := range ghosts {
+					if t, err := env.evalTop(g.Init); err == nil {
+						env.vars[g.Name] = t
+					}
+				}
 				f, err := env.evalBool(inv.Expr)
 				fe.addOblig(&Oblig{Kind: "inv-init", Props: inv.Props, Label: fmt.Sprintf("loop%d:%s", ord, inv.Label),
 					Reach: e.info.cond, Formula: f, Src: inv.Src, Pos: fr.pos(li.header.Instrs[0].Pos())}, err)
@@ -267,10 +274,22 @@ func (fr *Frame) cutLoop(li *loopInfo, st *State) {
 			}
 		}
 	}
+	// ghost accumulators: arbitrary value at the loop head
+	li.ghosts = map[string]Term{}
+	for _, g := range ghosts {
+		k := specSort(g.Sort)
+		n := fe.fresh(fr.prefix + "ghost_" + g.Name)
+		fe.declConst(n, k)
+		T, _ := fr.envAt(st).resolveType(g.Sort)
+		li.ghosts[g.Name] = Term{n, k, T}
+	}
 	// assume invariants
 	for _, inv := range invs {
 		env := fr.envAt(st)
 		env.loopHdr = li.header
+		for n, t := range li.ghosts {
+			env.vars[n] = t
+		}
 		f, err := env.evalBool(inv.Expr)
 		if err == nil {
 			fe.assume(sImp(st.alive, f))
@@ -350,6 +369,13 @@ func (fr *Frame) loopOrdinal(h *ssa.BasicBlock) int {
 		}
 	}
 	return n
+}
+
+func (fr *Frame) loopGhosts(ord int) []*GhostVar {
+	if fr.depth != 0 || fr.fe.fc == nil || fr.fe.fc.LoopGhost == nil {
+		return nil
+	}
+	return fr.fe.fc.LoopGhost[ord]
 }
 
 func (fr *Frame) loopInvariants(ord int) []*Clause {
@@ -508,6 +534,7 @@ func (fr *Frame) nilCheck(st *State, in ssa.Instruction, p ssa.Value) {
 // instr translates one instruction. Returns an Exit for Return instructions.
 func (fr *Frame) instr(b *ssa.BasicBlock, in ssa.Instruction, st *State) *Exit {
 	fe := fr.fe
+	fe.curState = st
 	switch x := in.(type) {
 	case *ssa.DebugRef:
 		return nil
@@ -775,9 +802,27 @@ func (fr *Frame) backEdges(b *ssa.BasicBlock, st *State) {
 				cnt--
 			}
 		}
+		// ghost accumulators step on the back edge: loop variables at their loop-head values, heap as of now
+		stepped := map[string]Term{}
+		for _, g := range fr.loopGhosts(ord) {
+			senv := fr.envAt(e.st)
+			senv.loopHdr = s
+			for n, t := range li.ghosts {
+				senv.vars[n] = t
+			}
+			if t, err := senv.evalTop(g.Step); err == nil {
+				nm := fe.define(fe.fresh(fr.prefix+"ghost_"+g.Name+"_next"), t.K, t.S)
+				stepped[g.Name] = Term{nm, t.K, t.T}
+			} else {
+				fe.addOblig(&Oblig{Kind: "inv-keep", Props: fe.fc.Props, Label: fmt.Sprintf("loop%d:ghost:%s", ord, g.Name), Reach: e.cond, Formula: "false", Src: g.Src}, err)
+			}
+		}
 		for _, inv := range fr.loopInvariants(ord) {
 			env := fr.envAt(e.st)
 			env.phiEdge = &phiSel{block: s, predIdx: predIdx}
+			for n, t := range stepped {
+				env.vars[n] = t
+			}
 			f, err := env.evalBool(inv.Expr)
 			fe.addOblig(&Oblig{Kind: "inv-keep", Props: inv.Props, Label: fmt.Sprintf("loop%d:%s", ord, inv.Label),
 				Reach: e.cond, Formula: f, Src: inv.Src, Pos: fr.pos(s.Instrs[0].Pos())}, err)
